@@ -235,3 +235,153 @@ Print Assumptions C10_src_level.
 Print Assumptions C10_src_eligible.
 Print Assumptions C10_src_enum_mapping.
 Print Assumptions C10_src_enum_order_same.
+
+(* ======================================================================================================
+   the tie to the source of fast_serialization.py (generated layer), appended from the contributor's file *)
+(* Property C10, second half (fast serialization): the tie to the source of typedpy/serialization/fast_serialization.py,
+   re-checked by the kernel on every run.  Ready to be appended to Props/C10.v.
+   Gen/FastSrc.v is re-generated from the source (harness/genmods/py2v_fast.py): FastSerializable.__init__ /
+   serialize, _get_value, _verify_is_fast_serializable, _get_serialize, _get_constant, create_serializer,
+   set_compact_wrapper, the inner functions they define (function values are data) and the subclass table of the
+   field classes.  For EVERY class environment, class, instance and fuel the source NOW is the hand-written model of
+   Ser/Fast.v (create_serializer, fast_ser) on which the C10 theorems are proved.  Proofs: Ser/FastSrcProofs.v. *)
+From Coq Require Import ZArith NArith String List.
+Import ListNotations.
+From TP Require Import Base.PyVal Base.PyOps Base.PyOps2 Base.PyObj Base.PyOpsFields Base.PyOpsFast
+     Fields.FieldAst Ser.Trusted Ser.Fast Gen.FastSrc Ser.TrustedSrcProofs Ser.FastSrcProofs.
+
+(* create_serializer(cls, compact, serialize_none): the model's failure conditions, and the serializer it installs *)
+Theorem C10_fast_src_create :
+  forall (other_obj : N -> bool -> pyval) (sser ofast : N -> pyval -> res pyval) (e : tenv)
+         (agg_chain : tclass -> pyval) (fuel d : nat) (call : callfn) (h : heap) (cn : pystr) (c : tclass)
+         (compact sn : bool),
+    env_ok other_obj e = true ->
+    fits_env other_obj e d = true ->
+    heap_inv other_obj e h ->
+    find_tclass e cn = Some c ->
+    create_serializer e fuel cn <> Raise Unmodelled ->
+    create_serializer e fuel cn <> Raise OutOfFuel ->
+    match create_serializer e fuel cn with
+    | Ok _ =>
+        exists h1 : heap,
+          heap_inv other_obj e h1 /\
+          src_create_serializer fuel d call (fast_ext other_obj sser ofast e agg_chain) h
+                                (ref cn) (PBool compact) (PBool sn) PNone =
+          Ok (final_heap other_obj h1 cn c (PBool sn) compact, PNone)
+    | Raise x =>
+        src_create_serializer fuel d call (fast_ext other_obj sser ofast e agg_chain) h
+                              (ref cn) (PBool compact) (PBool sn) PNone = Raise x
+    end.
+Proof. exact src_create_eq. Qed.
+
+(* the same, from the classes as they are before any serializer exists *)
+Theorem C10_fast_src_create_fresh :
+  forall (other_obj : N -> bool -> pyval) (sser ofast : N -> pyval -> res pyval) (e : tenv)
+         (agg_chain : tclass -> pyval) (fuel d : nat) (call : callfn) (cn : pystr) (c : tclass) (compact sn : bool),
+    env_ok other_obj e = true ->
+    fits_env other_obj e d = true ->
+    find_tclass e cn = Some c ->
+    create_serializer e fuel cn <> Raise Unmodelled ->
+    create_serializer e fuel cn <> Raise OutOfFuel ->
+    match create_serializer e fuel cn with
+    | Ok _ =>
+        exists h1 : heap,
+          heap_inv other_obj e h1 /\
+          src_create_serializer fuel d call (fast_ext other_obj sser ofast e agg_chain)
+                                (fast_heap0 other_obj e) (ref cn) (PBool compact) (PBool sn) PNone =
+          Ok (final_heap other_obj h1 cn c (PBool sn) compact, PNone)
+    | Raise x =>
+        src_create_serializer fuel d call (fast_ext other_obj sser ofast e agg_chain)
+                              (fast_heap0 other_obj e) (ref cn) (PBool compact) (PBool sn) PNone = Raise x
+    end.
+Proof. exact src_create_fresh. Qed.
+
+(* what the class holds afterwards: the serializer as data (per field, which getter) and the marker *)
+Theorem C10_fast_src_installed :
+  forall (other_obj : N -> bool -> pyval) (h1 : heap) (cn : pystr) (c : tclass) (sn : pyval) (compact : bool),
+    final_heap other_obj h1 cn c sn compact cn a_serialize = Some (installed other_obj cn c sn compact) /\
+    final_heap other_obj h1 cn c sn compact cn a_created = Some (PBool true) /\
+    (forall o a : pystr, pystr_eqb o cn = false -> final_heap other_obj h1 cn c sn compact o a = h1 o a) /\
+    (forall a : pystr, pystr_eqb a a_serialize = false -> pystr_eqb a a_created = false ->
+                       final_heap other_obj h1 cn c sn compact cn a = h1 cn a).
+Proof. exact final_heap_cells. Qed.
+
+(* the installed serializer, called on an instance = fast_ser (compact = False) *)
+Theorem C10_fast_src_serializer :
+  forall (other_obj : N -> bool -> pyval) (sser ofast : N -> pyval -> res pyval) (e : tenv)
+         (agg_chain : tclass -> pyval) (h : heap),
+    heap_installed other_obj e h ->
+    env_ok other_obj e = true ->
+    forall (n : nat) (cn : pystr) (c : tclass) (v : pyval) (sn : bool),
+      find_tclass e cn = Some c ->
+      t_fast c = true ->
+      insts_ok e v = true ->
+      fast_ser sser ofast e n sn false cn v <> Raise Unmodelled ->
+      src_apply (2 * n) (fast_ext other_obj sser ofast e agg_chain) h (ser_closure other_obj cn c (PBool sn)) [v] =
+      fast_ser sser ofast e n sn false cn v.
+Proof. exact src_serializer_eq. Qed.
+
+(* the compact wrapper = fast_ser (compact = True) *)
+Theorem C10_fast_src_compact :
+  forall (other_obj : N -> bool -> pyval) (sser ofast : N -> pyval -> res pyval) (e : tenv)
+         (agg_chain : tclass -> pyval) (h : heap),
+    heap_installed other_obj e h ->
+    env_ok other_obj e = true ->
+    forall (n : nat) (cn : pystr) (c : tclass) (a : list (pystr * pyval)) (sn : bool),
+      find_tclass e cn = Some c ->
+      t_fast c = true ->
+      insts_ok e (PStruct cn a) = true ->
+      fast_ser sser ofast e n sn true cn (PStruct cn a) <> Raise Unmodelled ->
+      src_apply (S (2 * n)) (fast_ext other_obj sser ofast e agg_chain) h
+                (compact_closure (ser_closure other_obj cn c (PBool sn))) [PStruct cn a] =
+      fast_ser sser ofast e n sn true cn (PStruct cn a).
+Proof. exact src_compact_eq. Qed.
+
+(* FastSerializable.__init__: the lazy installation *)
+Theorem C10_fast_src_init :
+  forall (other_obj : N -> bool -> pyval) (sser ofast : N -> pyval -> res pyval) (e : tenv)
+         (agg_chain : tclass -> pyval) (fuel d : nat) (call : callfn) (h : heap) (cn : pystr) (c : tclass)
+         (a : list (pystr * pyval)) (args kwargs : pyval),
+    env_ok other_obj e = true ->
+    fits_env other_obj e d = true ->
+    heap_inv other_obj e h ->
+    find_tclass e cn = Some c ->
+    (h cn a_serialize = None ->
+     create_serializer e fuel cn <> Raise Unmodelled /\ create_serializer e fuel cn <> Raise OutOfFuel) ->
+    match h cn a_serialize with
+    | Some _ =>
+        src_FastSerializable__init fuel d call (fast_ext other_obj sser ofast e agg_chain) h (PStruct cn a) args kwargs =
+        Ok (h, PNone)
+    | None =>
+        match create_serializer e fuel cn with
+        | Ok _ =>
+            exists h1 : heap,
+              heap_inv other_obj e h1 /\
+              src_FastSerializable__init fuel d call (fast_ext other_obj sser ofast e agg_chain) h (PStruct cn a) args kwargs =
+              Ok (final_heap other_obj h1 cn c (PBool false) false, PNone)
+        | Raise x =>
+            src_FastSerializable__init fuel d call (fast_ext other_obj sser ofast e agg_chain) h (PStruct cn a) args kwargs =
+            Raise x
+        end
+    end.
+Proof. exact src_init_eq. Qed.
+
+(* the heaps the theorems speak about exist *)
+Theorem C10_fast_src_heap0 :
+  forall (other_obj : N -> bool -> pyval) (e : tenv),
+    env_ok other_obj e = true -> heap_inv other_obj e (fast_heap0 other_obj e).
+Proof. exact heap0_inv. Qed.
+
+Theorem C10_fast_src_heap1 :
+  forall (other_obj : N -> bool -> pyval) (e : tenv),
+    env_ok other_obj e = true -> heap_installed other_obj e (fast_heap1 other_obj e).
+Proof. exact heap1_installed. Qed.
+
+Print Assumptions C10_fast_src_create.
+Print Assumptions C10_fast_src_create_fresh.
+Print Assumptions C10_fast_src_installed.
+Print Assumptions C10_fast_src_serializer.
+Print Assumptions C10_fast_src_compact.
+Print Assumptions C10_fast_src_init.
+Print Assumptions C10_fast_src_heap0.
+Print Assumptions C10_fast_src_heap1.
